@@ -362,7 +362,7 @@ pub fn c14_read(ctx: &Ctx) -> Outcome {
         for kind in KINDS {
             for backend in ["memzx", "memstrict"] {
                 for wrapper in ["count", "dbg", "count+pre", "count+pre/seeks"] {
-                    if !ctx.thorough && wrapper == "dbg" && !(kind == "buf32" || kind == "unbuf") {
+                    if !ctx.thorough && wrapper == "dbg" && !(kind == "buf16" || kind == "buf32" || kind == "unbuf") {
                         continue;
                     }
                     // "count+pre": the wrapper is created after 13 bits were consumed; "/seeks": seeks
